@@ -53,9 +53,9 @@ def specStream (recTime : Bool) (recorded : List SPoint) (recGroups : List (Byte
 
 /-! #### Stream deviations -/
 
-/-- Clause of finding `stream-newline-framing`: some component that the recording writes on its own line contains a
-line feed, or the database / retention policy ends in a carriage return. (Newlines in the line-protocol part come
-only from the measurement, tag keys/values, field keys and string field values: `Kap.Props.C18.line_clean_iff`.) -/
+/-- Clause of finding `stream-newline-framing`: a NAME that the recording writes unquoted — database, retention
+policy, measurement, a tag key or value, a field key — contains a line feed, or the database / retention policy ends
+in a carriage return. (A line feed inside a string field VALUE is fine since the `fix:` commit c988361.) -/
 def hasNL (s : Bytes) : Bool := s.contains NL
 def endsCR (s : Bytes) : Bool := s.getLast? == some CR
 
@@ -65,7 +65,7 @@ def FV.hasNL : FV → Bool
 
 def SPoint.dirty (p : SPoint) : Bool :=
   hasNL p.db || hasNL p.rp || endsCR p.db || endsCR p.rp || hasNL p.name ||
-  p.tags.any (fun kv => hasNL kv.1 || hasNL kv.2) || p.fields.any (fun kv => hasNL kv.1 || kv.2.hasNL)
+  p.tags.any (fun kv => hasNL kv.1 || hasNL kv.2) || p.fields.any (fun kv => hasNL kv.1)
 
 /-- Clause of finding `stream-hash-measurement`: the measurement starts with `#`, so the recorded line is a
 line-protocol comment. -/
